@@ -65,8 +65,15 @@ def gen_layout(r, entry):
             fi = r.randrange(nfiles)
             f = files[fi]
             if opt == "Ignore":
-                m = {p: r.choice(M.IGNORE_VALUES) for p in r.sample(M.IGNORE_PATHS, r.randrange(1, 3))}
+                # (an EMPTY mapping is legal too - it is what `<command> --config` prints for a section without rules -
+                # and, merged on top of another file's rules, changes nothing)
+                m = {p: r.choice(M.IGNORE_VALUES) for p in r.sample(M.IGNORE_PATHS, r.choice([0, 1, 1, 2]))}
                 f.setdefault(sec, {}).setdefault("Ignore", {}).update(m)
+                if r.random() < 0.4 and nfiles > 1:
+                    # the same section's Ignore in a second file: rules of its own, or none
+                    f2 = files[0] if fi != 0 else files[r.randrange(1, nfiles)]
+                    f2.setdefault(sec, {}).setdefault("Ignore", {}).update(
+                        {p: r.choice(M.IGNORE_VALUES) for p in r.sample(M.IGNORE_PATHS, r.choice([0, 0, 1]))})
             else:
                 f.setdefault(sec, {})[opt] = r.choice(M.DOMAINS[opt])
             if r.random() < 0.3 and nfiles > 1 and opt != "Ignore":
